@@ -6,7 +6,7 @@ mod conv;
 
 use boxworks::ds;
 use common::{GlueOrder, Scaled};
-use conv::{ch, disc, glue, kern, lig, pen};
+use conv::{ch, chf, disc, glue, kern, lig, ligf, pen};
 use reftex::kp;
 use serde_json::{json, Value};
 use vcore::{catch, Acc, Ctx, Level};
@@ -74,9 +74,33 @@ fn glue_diag(amounts: &[i32], paired: bool) -> Vec<ds::Horizontal> {
     }
     v
 }
+/// The same characters in a second font with different metrics, and in a font that lacks them.
+fn other_font_glyphs() -> Vec<ds::Horizontal> {
+    vec![chf('a', 1), chf('b', 1), ligf('f', "ff", 1), chf('a', 2), chf('b', 2)]
+}
+/// Characters and ligatures over {a, b} x {font 0, font 1, font 2 (a missing)}, interleaved with a
+/// glue, a kern, a box and a penalty.
+fn fonts_menu() -> Vec<ds::Horizontal> {
+    use GlueOrder::*;
+    vec![
+        chf('a', 0),
+        chf('a', 1),
+        chf('a', 2),
+        chf('b', 0),
+        chf('b', 1),
+        chf('b', 2),
+        ligf('a', "aa", 0),
+        ligf('a', "aa", 1),
+        glue(PT, 2 * PT, Normal, PT, Normal),
+        kern(PT, ds::KernKind::Normal),
+        hbox(PT, 2 * PT, PT, 0),
+        pen(0),
+    ]
+}
 fn mixed_menu() -> Vec<ds::Horizontal> {
     use GlueOrder::*;
     let mut m = non_glue_menu();
+    m.extend(other_font_glyphs());
     m.extend([
         glue(PT, 2 * PT, Normal, 0, Normal),
         glue(PT, 0, Normal, 2 * PT, Normal),
@@ -303,7 +327,12 @@ fn check_pack(idx: u64, list: &[ds::Horizontal], mlist: &[kp::Node], t: Target, 
         acc.class(&format!("ok {cls} order={}", want.order));
         return;
     }
-    let why = if has_box {
+    let glyphs: Vec<(char, u32)> = list.iter().filter_map(|n| if let ds::Horizontal::Char(ds::Char { char, font }) | ds::Horizontal::Ligature(ds::Ligature { char, font, .. }) = n { Some((*char, *font)) } else { None }).collect();
+    let why = if glyphs.windows(2).any(|w| w[0].0 == w[1].0 && w[0].1 != w[1].1) {
+        "a character is followed by the same character in another font (or one that lacks it)"
+    } else if glyphs.iter().any(|(c, f)| font.metrics(*c, *f).is_none()) {
+        "a character is missing from its font"
+    } else if has_box {
         "list contains a box or rule (class D17)"
     } else if hidden_higher {
         "a higher glue order is present with zero total (class D13)"
@@ -381,6 +410,33 @@ fn check_list(list_idx: u64, list: &[ds::Horizontal], acc: &mut Acc) {
             acc.skipped += 1;
             return;
         }
+    }
+    // glyph collisions: the same character again in another font with no other character in
+    // between (whatever else is in between), and characters missing from their font
+    let mut last: Option<(char, u32, bool)> = None;
+    let (mut refont, mut missing, mut missing_after_present) = (false, false, false);
+    for n in list {
+        if let ds::Horizontal::Char(ds::Char { char, font }) | ds::Horizontal::Ligature(ds::Ligature { char, font, .. }) = n {
+            let present = FONT.metrics(*char, *font).is_some();
+            missing |= !present;
+            if let Some((c, f, p)) = last {
+                if c == *char && f != *font {
+                    refont |= present && p;
+                    missing_after_present |= !present && p;
+                }
+            }
+            last = Some((*char, *font, present));
+        }
+    }
+    let ntargets_hint = 1;
+    if refont {
+        acc.count_n("same_character_repeated_in_another_font", ntargets_hint);
+    }
+    if missing {
+        acc.count_n("character_missing_from_its_font", ntargets_hint);
+    }
+    if missing_after_present {
+        acc.count_n("missing_character_right_after_the_same_character_in_a_font_that_has_it", ntargets_hint);
     }
     let p0 = kp::hpack(&mlist, kp::Pack::Additional(0));
     for (k, t) in targets(&p0).into_iter().enumerate() {
@@ -495,7 +551,7 @@ fn seq_family(ctx: &mut Ctx, family_no: u64, name: &str, what: &str, menu: &(dyn
 fn main() {
     let mut ctx = Ctx::new("C15", Level::Exploration);
     ctx.assume("domain: characters, ligatures, kerns, rules, hboxes/vboxes with shifts, penalties, discretionaries, glue; marks, inserts, adjusts, math nodes, whatsits and leaders are outside the property's quantifier (the code has todo!() there)");
-    ctx.assume("every character is in the font; all dimensions, the natural width and the target are within TeX's max_dimen (2^30-1 sp); every running sum of widths and of per-order stretch/shrink stays inside TeX's 32-bit integers (TeX adds them unchecked, §651-656)");
+    ctx.assume("metrics are looked up per (font, character) (§654); a character node whose font lacks the character contributes nothing (TeX never builds such a node: new_character §582 returns null; the crate's pack passes over it); all dimensions, the natural width and the target are within TeX's max_dimen (2^30-1 sp); every running sum of widths and of per-order stretch/shrink stays inside TeX's 32-bit integers (TeX adds them unchecked, §651-656)");
     ctx.assume("ds::HBox has no glue_sign field: the sign is carried by glue_ratio.num/den (negative = shrinking, the way boxworks::tex::parse_glue_set builds it) and is judged through the exact identity natural + ratio*total(order) = width on every box whose glue is set and which TeX would not report as overfull; on an overfull box (TeX: glue_set 1.0, sign shrinking) only |ratio| = 1 is required, because the crate's own equality and box language are sign-blind (the sign observed there is recorded as an outcome class)");
     ctx.assume("the printed form of a ratio is compared through the crate's own Display (f32 based, TeX §186 uses a float as well); the exact rational identity is what decides");
     ctx.assume("a running rule dimension is ds::Rule::RUNNING (-2^31) in the crate and null_flag (-2^30) in TeX; the conversion maps one to the other");
@@ -522,7 +578,7 @@ fn main() {
 
     let quick = ctx.quick();
     // F1: every node kind mixed with representative glue
-    seq_family(&mut ctx, 0, "nodes-mixed", "the node menu: 2 chars, ligature, +-kern, fixed and running rule, hbox shift 0/+/-, vbox shift +/- (one with negative width), penalty, discretionary, 10 glues (finite, fil, fill, filll, zero amount at a high order, negative)", &mixed_menu, 0, if quick { 4 } else { 5 });
+    seq_family(&mut ctx, 0, "nodes-mixed", "the node menu: 2 chars, ligature (font 0), the same three in font 1 with other metrics, a and b in font 2 (a missing there), +-kern, fixed and running rule, hbox shift 0/+/-, vbox shift +/- (one with negative width), penalty, discretionary, 10 glues (finite, fil, fill, filll, zero amount at a high order, negative)", &mixed_menu, 0, if quick { 4 } else { 5 });
     // F2: glue combinations, full cross of stretch x shrink
     if quick {
         seq_family(&mut ctx, 1, "glue-cross", "all glue with stretch in {0,+2pt,-2pt} x {normal,fil,fill,filll} and shrink in the same 12 values (144 glues, width cycling 0/+1pt/-1pt)", &|| glue_cross(&[0, 2, -2]), 1, 3);
@@ -532,6 +588,8 @@ fn main() {
     // F3: longer glue lists over stretch-only / shrink-only / paired glue
     seq_family(&mut ctx, 2, "glue-diag-4", "glue that only stretches, only shrinks, or does both with one amount and order; amounts {0,+2pt,-2pt} x 4 orders (36 glues)", &|| glue_diag(&[0, 2, -2], true), 4, 4);
     seq_family(&mut ctx, 3, "glue-diag-deep", "glue that only stretches or only shrinks; amounts {0,+2pt,-2pt,+3pt} x 4 orders (32 glues)", &|| glue_diag(&[0, 2, -2, 3], false), if quick { 4 } else { 5 }, if quick { 4 } else { 5 });
+    // F3b: the same character in several fonts
+    seq_family(&mut ctx, 5, "fonts", "characters and ligatures over {a,b} x {font 0, font 1 (other metrics), font 2 (a missing)} interleaved with a glue, a kern, a box and a penalty", &fonts_menu, 1, if quick { 5 } else { 6 });
     // F4: dimensions at max_dimen
     seq_family(&mut ctx, 4, "max-dimen", "kerns, glue, boxes and rules with dimensions +-(2^30-1) (cases whose natural width or target leaves max_dimen are skipped)", &boundary_menu, 1, 3);
 
@@ -539,6 +597,9 @@ fn main() {
     ctx.require("several_orders_with_nonzero_total", "two or more orders have a non-zero total on the side that is set");
     ctx.require("negative_total_at_setting_order", "the total that sets the glue is negative");
     ctx.require("glue_present_but_nothing_to_set", "the list has glue but every total on the needed side is zero (box left unset)");
+    ctx.require("same_character_repeated_in_another_font", "lists in which a character is followed (with anything but another character in between) by the same character in a font with different metrics");
+    ctx.require("character_missing_from_its_font", "lists with a character node whose font lacks the character (FontRepo returns None)");
+    ctx.require("missing_character_right_after_the_same_character_in_a_font_that_has_it", "the missing character directly follows (among characters) the same character in a font that has it");
     ctx.require("overfull", "TeX would call the box overfull");
     ctx.require("shrink_exactly_used_up", "the target equals natural width minus the finite shrinkability (ratio exactly 1, not overfull)");
     ctx.require("shifted_box_decides_height_or_depth", "a shifted box determines the height or depth of the result");
